@@ -836,7 +836,10 @@ func oneLineErr(s string) string {
 const c02Rule = "part A: every (17 basic kinds × 41 place shapes [local variable/parameter at closure depth 0..4, global at depth 0..3 and at top level in integer-slot and boxed storage, named type, *p (4 forms), " +
 	"array/slice/pointer-to-array element with constant and counted index, nested slices, map element present/absent/constant key/map in slice/key of the kind itself, struct field first/middle/nested/embedded/through pointer/in slice/array in struct, blank] " +
 	"× 14 statements [=, 11 op=, ++, --] × rhs [variable | each constant of the kind's constant alphabet incl. 0, ±1, ±2^k, min, max | shift count variable of each of the 11 integer kinds | shift count literal]) is compiled once and executed on every (x, y) of the value alphabet; " +
-	"statements Go rejects (go/types) must be rejected at compile time. part B (twin execution): all 2-place and 3-place multi-assignments over aliasing place/value alphabets, all statement sequences of length <=3 over a 12-statement alphabet on 2 variables, places whose evaluation panics, invalid statements. " +
+	"statements Go rejects (go/types) must be rejected at compile time. part B (twin execution): all 2-place and 3-place multi-assignments over aliasing place/value alphabets, all statement sequences of length <=3 over a 12-statement alphabet on 2 variables, places whose evaluation panics, invalid statements; " +
+	"re-entrant corpus (c02_reent.go): every statement form [single with each operator, 2 and 3 places = values, 2 places = f(), comma-ok] over 11 place classes is re-entered (recursion through, or a goroutine started and awaited by, " +
+	"the operand at EVERY window position: operand of each place, each right-hand side, each argument) while an outer execution of the same site is suspended between evaluating its operands and storing, 3 executions deep and then a second non-nested round, " +
+	"in closure/top-level/nested frames, element kinds int, uint8, float64, string, struct. " +
 	"non-trivial = distinct (kind, shape, statement, rhs, outcome class) with outcome class changed/wrapped/panic/rejected (identity outcomes not counted), plus distinct part-B programs whose Go result is not empty"
 
 func c02Run(c *core.Ctx) {
@@ -853,8 +856,13 @@ func c02Run(c *core.Ctx) {
 	large := c.Thorough()
 	// development aids (not used by run.sh): VERIF_C02_FILTER=substring of "kind|shape|op|rhs", VERIF_C02_PART=A|B
 	filter, part := os.Getenv("VERIF_C02_FILTER"), os.Getenv("VERIF_C02_PART")
-	if filter != "" || part != "" {
+	if filter != "" || part != "" || os.Getenv("VERIF_C02_CORPUS") != "" {
 		c.Cap("development filter active")
+	}
+	// part B first: it is the cheaper and the more varied part (multi-assignments, re-entrancy); if the internal deadline
+	// cuts the run short on a loaded machine, part B has been covered completely
+	if part != "A" {
+		c02TwinRun(c, c02Cases(c, nil))
 	}
 	expired := false
 	ncases := c02Cases(c, func(i int, cs *c02Case) {
@@ -871,9 +879,6 @@ func c02Run(c *core.Ctx) {
 		r.runCase(*cs, large, false)
 	})
 	c.Set("partA_compiled_cases", ncases)
-	if part != "A" && !expired {
-		c02TwinRun(c, ncases)
-	}
 }
 
 func c02Replay(c *core.Ctx, raw json.RawMessage) {
